@@ -534,6 +534,10 @@ def p16(v, case, obs):
             wire, hs, ps, stop1, nstop, is_open = I.parse_obs(f)
         except ValueError:
             return []
+        if nstop or not is_open or any(t == 0xE0 for (t, _, _) in wire):
+            # the step in which the connection ends: responses still owed may be dropped by the teardown, and
+            # PINGRESPs cannot be told apart -- what is written there is not judged
+            break
         for (t, pid, r) in wire:
             if t not in (0x40, 0x50, 0x70, 0x90, 0xB0, 0xD0) or r == 0x91:
                 continue
